@@ -41,6 +41,11 @@ def block_options(i, variant, incdir):
                 'IdentityFile %%d/alt%d_%%u' % v, 'SendEnv=W%d X%d' % (v, v), 'SetEnv A%d=1' % v]
     if variant == 'include':
         return ['Include %s/inc%d.conf' % (incdir, v), 'Port 230%d' % v, 'Include %s/none*.conf' % incdir]
+    if variant == 'include-multi':
+        # one Include naming several files / a glob matching several: a file that ends inside a
+        # non-matching block must not switch off the beginning of the next one
+        return ['Include %s/g*.conf' % incdir, 'Port 240%d' % v, 'Include %s/m1.conf %s/m2.conf' % (incdir, incdir),
+                'SendEnv B%d' % v]
     raise ValueError(variant)
 
 
@@ -48,6 +53,8 @@ def program(headers, variant, incdir):
     lines = []
     if variant == 'include':
         lines.append('Include %s/top.conf' % incdir)
+    if variant == 'include-multi':
+        lines.append('Include %s/m1.conf %s/m2.conf' % (incdir, incdir))
     for i, h in enumerate(headers):
         lines.append(h)
         for o in block_options(i, variant, incdir):
@@ -59,6 +66,13 @@ def write_includes(incdir):
     os.makedirs(incdir, exist_ok=True)
     with open(os.path.join(incdir, 'top.conf'), 'w') as f:
         f.write('SendEnv TOP\nHost ab\n  User topab\n')
+    for name, text in (('m1.conf', 'SendEnv M1\nHost zzz\n  User m1zzz\n  Port 2501\n'),
+                       ('m2.conf', 'SendEnv M2\nUser m2\nHost ab\n  IdentityFile ~/.ssh/m2_ab\n'),
+                       ('g1.conf', 'SendEnv G1\nMatch host nomatch\n  User g1no\n  SendEnv G1NO\n'),
+                       ('g2.conf', 'SendEnv G2\nCompression yes\nMatch host a\n  ProxyJump g2a\n'),
+                       ('g3.conf', 'SendEnv G3\nProxyJump g3\n')):
+        with open(os.path.join(incdir, name), 'w') as f:
+            f.write(text)
     for v in (1, 2, 3):
         with open(os.path.join(incdir, 'inc%d.conf' % v), 'w') as f:
             f.write('User inc%d\nSendEnv I%d\nHost a\n  IdentityFile ~/.ssh/inc_a_%d\n' % (v, v, v))
@@ -97,10 +111,12 @@ def ssh_g(cfgpath, host, user, port):
     return out, None
 
 
-def compare(cfgpath, host, user, port):
+def compare(cfgpath, host, user, port, paths=None):
+    """paths: asyncssh is given this list of files (config=[f1, f2, ...]); ssh -G reads cfgpath, which
+    includes them one after the other (every file starts outside any Host/Match block)"""
     ref, err = ssh_g(cfgpath, host, user, port)
     try:
-        cfg = SSHClientConfig.load(None, [cfgpath], False, False, False, 'root', user or (), host, port or ())
+        cfg = SSHClientConfig.load(None, paths or [cfgpath], False, False, False, 'root', user or (), host, port or ())
         aerr = None
     except Exception as exc:        # pylint: disable=broad-except
         cfg, aerr = None, repr(exc)
@@ -150,14 +166,28 @@ def client_worker(job):
     os.makedirs(HOME, exist_ok=True)
     os.environ['HOME'] = HOME           # asyncssh expands %d and ~ from the environment, like ssh does
     for headers, variant in progs:
-        text = program(headers, variant, incdir)
         cfgpath = os.path.join(wd, 'cfg')
+        paths = None
+        if variant == 'list':
+            # the blocks go into separate files handed to asyncssh as a list
+            paths = []
+            for i, h in enumerate(headers):
+                p = os.path.join(wd, 'part%d' % i)
+                with open(p, 'w') as f:
+                    f.write(('SendEnv L%d\n' % i) + program((h,), 'plain', incdir).replace('u1', 'u%d' % (i + 1)).replace('2201', '220%d' % (i + 1))
+                            .replace('V1', 'V%d' % (i + 1)).replace('id_1', 'id_%d' % (i + 1)).replace('jump1', 'jump%d' % (i + 1)))
+                paths.append(p)
+            text = ''.join('Include %s\n' % p for p in paths)
+        else:
+            text = program(headers, variant, incdir)
         with open(cfgpath, 'w') as f:
             f.write(text)
+        if paths:
+            text = ' | '.join(open(p).read().replace('\n', ' ; ') for p in paths)
         for host in ('a', 'ab', 'b.example'):
             for user in (None, 'u'):
                 for port in (None, 2222):
-                    viol = compare(cfgpath, host, user, port)
+                    viol = compare(cfgpath, host, user, port, paths)
                     acc.add(core.digest((headers, variant, host, user, port)), transitions=1,
                             sample={'config': text[:300], 'target': [host, user, port]} if len(headers) == 2 and variant == 'tokens' and host == 'ab' and user else None)
                     for k, d in viol:
@@ -230,16 +260,17 @@ def main(tier, seed):
         hs += list(itertools.product(HEADERS, repeat=n))
     if tier == 'thorough':
         hs = [h for h in hs if len(h) < 3 or len(set(h)) == 3]
-    progs = [(h, v) for h in hs for v in ('plain', 'tokens', 'include')]
+    progs = [(h, v) for h in hs for v in ('plain', 'tokens', 'include', 'include-multi', 'list')]
     acc = core.pmap(client_worker, core.rotate([progs[i::64] for i in range(64)], seed))
     n_client = acc.evaluations
     acc.merge(core.pmap(server_worker, [0]))
     shutil.rmtree(SCRATCH, ignore_errors=True)
     rule = ('client: every sequence of 1..%d conditional blocks over %d headers (Host patterns with wildcards and '
             'negation in either position, Match host/originalhost/user/localuser/all with negation and lists), every '
-            'block assigning each option under test a distinct value, x 3 variants (plain; "=" and quoted spellings, '
+            'block assigning each option under test a distinct value, x 5 variants (plain; "=" and quoted spellings, '
             'Hostname with %%h, IdentityFile with %%h %%r %%p %%n %%%% %%d %%u, multiple SendEnv words, SetEnv; Include '
-            'of existing, nested-Host and non-matching glob files) x 12 targets (3 hosts x user x port) vs ssh -G; '
+            'of existing, nested-Host and non-matching glob files; one Include naming several files or a glob matching '
+            'several, some ending inside a non-matching block; the blocks as separate files given as a list) x 12 targets (3 hosts x user x port) vs ssh -G; '
             'server: %d AuthorizedKeysFile templates x %d user names' % (depth, len(HEADERS), len(TEMPLATES), len(USERS)))
     return core.finish(PROP, tier, seed, 'exploration', acc, t0, rule,
                        {'programs': len(progs), 'ssh_G_calls': n_client},
